@@ -804,6 +804,60 @@ pub fn family(name: &str, k: usize) -> Vec<Vec<u8>> {
             p32(&mut d, 7);
             vec![t.wire(), d]
         }
+        "v9-kind-flips" => {
+            // one packet, k flowsets: template 256, options template 256, template 256, ... (every
+            // flowset moves the id to the other map)
+            let mut d = v9hdr(k as u16);
+            for i in 0..k {
+                if i % 2 == 0 {
+                    p16(&mut d, 0);
+                    p16(&mut d, 12);
+                    p16(&mut d, 256);
+                    p16(&mut d, 1);
+                    p16(&mut d, 1);
+                    p16(&mut d, 4);
+                } else {
+                    p16(&mut d, 1);
+                    p16(&mut d, 20);
+                    p16(&mut d, 256);
+                    p16(&mut d, 4);
+                    p16(&mut d, 4);
+                    p16(&mut d, 1);
+                    p16(&mut d, 4);
+                    p16(&mut d, 1);
+                    p16(&mut d, 4);
+                    p16(&mut d, 0);
+                }
+            }
+            vec![d]
+        }
+        "ipfix-kind-flips" => {
+            let mut body = vec![];
+            for i in 0..k {
+                if i % 2 == 0 {
+                    p16(&mut body, 2);
+                    p16(&mut body, 12);
+                    p16(&mut body, 256);
+                    p16(&mut body, 1);
+                    p16(&mut body, 1);
+                    p16(&mut body, 4);
+                } else {
+                    p16(&mut body, 3);
+                    p16(&mut body, 20);
+                    p16(&mut body, 256);
+                    p16(&mut body, 2);
+                    p16(&mut body, 1);
+                    p16(&mut body, 1);
+                    p16(&mut body, 4);
+                    p16(&mut body, 2);
+                    p16(&mut body, 2);
+                    p16(&mut body, 0);
+                }
+            }
+            let mut d = ixhdr(16 + body.len());
+            d.extend(body);
+            vec![d]
+        }
         "mixed-version-chain" => {
             // k groups of (V5 header, V7 header, V9 header, IPFIX header)
             let mut d = vec![];
@@ -863,6 +917,8 @@ pub const FAMILIES: &[(&str, usize)] = &[
     ("ipfix-zero-records", 8192),
     ("v9-zero-records", 8192),
     ("ipfix-ones-records", 8192),
+    ("v9-kind-flips", 2048),
+    ("ipfix-kind-flips", 2048),
 ];
 
 /// Fill all four caches of a parser with `p` unrelated templates of 64 fields each (ids from 20000
@@ -958,9 +1014,13 @@ pub const PRELOAD: usize = 2048;
 /// returns the cost of the last call of the family member of size k on a parser whose caches
 /// already hold PRELOAD unrelated templates per map
 fn run_family_preloaded(name: &str, k: usize) -> (CallCost, Sut) {
+    run_family_preloaded_n(name, k, PRELOAD)
+}
+
+fn run_family_preloaded_n(name: &str, k: usize, n: usize) -> (CallCost, Sut) {
     let bufs = family(name, k);
     let mut sut = Sut::new(1);
-    preload(&mut sut.parsers[0], PRELOAD);
+    preload(&mut sut.parsers[0], n);
     let mut last = None;
     for b in &bufs {
         last = Some(measure(&mut sut, 0, b));
@@ -1059,6 +1119,32 @@ pub fn run(w: &mut W) {
             }
         }
         j += 1;
+    }
+    // ---- 4c. the same for cache sizes that sit exactly on a hash table's growth threshold
+    //      (7/8 of a power of two, with and without the family's own id): a map that is shrunk or
+    //      rebuilt whenever an entry moves shows here - each flip then costs the whole table
+    for name in ["v9-kind-flips", "ipfix-kind-flips", "chained-v9-template-packets", "v9-templates-distinct-ids"] {
+        for pre in [1791usize, 1792, 3583, 3584] {
+            if w.oneoff(j) {
+                let _ = w.begin_case(crate::worker::ONEOFF + j, name);
+                let k = 256usize;
+                let (c1, _) = run_family(name, k);
+                let (c2, sut2) = run_family_preloaded_n(name, k, pre);
+                w.rep.count("preload_pairs", 1);
+                w.rep.count("threshold_preload_pairs", 1);
+                w.rep.count("calls_measured", 2);
+                let a1 = c1.m.requested as f64;
+                let a2 = c2.m.requested as f64;
+                w.rep.max("preload.max_requested_extra_at_growth_threshold", (a2 - a1).max(0.0));
+                w.rep.shape(&format!("threshold-preload {} pre={}", name, pre));
+                let allowance = 4.0 * 2.0 * (pre as f64) * 64.0 * 2.0 + 65536.0;
+                if a2 > a1 + allowance {
+                    let d = div(&format!("cost/cache-size/{}", name), "requested-depends-on-cache", format!("{} bytes requested with {} unrelated templates per map cached (a hash-table growth threshold), {} on a fresh parser (k={}): the difference exceeds the growth allowance {}", a2, pre, a1, k, allowance));
+                    w.rep.violation(format!("C15|cost/cache-size/{}|requested-depends-on-cache", name), &d, json!({"family": name, "k": k, "preload": pre, "note": "cost::preload(parser, preload) before the family's buffers", "ops_after_preload": sut2.replay_json()["ops"].as_array().map(|a| a.len()).unwrap_or(0)}));
+                }
+            }
+            j += 1;
+        }
     }
     // ---- headers announcing huge counts over short bodies (single-request bound)
     let announce: Vec<(&str, Vec<u8>)> = {
